@@ -554,7 +554,9 @@ func sourcesE2E(ctx *Ctx) {
 		{Name: "fp", Kind: "filetoparams", Arg: "params.txt"}, {Name: "rfp", Kind: "precorder"},
 		{Name: "cp", Kind: "cmdtoparams", Arg: "printf 'one\\ntwo\\n\\nthree'"}, {Name: "rcp", Kind: "precorder"},
 		{Name: "gl", Kind: "globber", Paths: []string{"tree/*.txt", "tree/sub/*"}}, {Name: "rgl", Kind: "recorder"},
-	}, Edges: []Edge{{From: "fs.out", To: "rfs.in"}, {From: "ps.out", To: "rps.in", Param: true}, {From: "fp.line", To: "rfp.in", Param: true},
+		// several patterns of which some match nothing: the files of the others are still emitted, pattern by pattern
+		{Name: "gl2", Kind: "globber", Paths: []string{"tree/*.nomatch", "tree/*.dat", "tree/none*", "tree/sub/*", "tree/zz*"}}, {Name: "rgl2", Kind: "recorder"},
+	}, Edges: []Edge{{From: "gl2.out", To: "rgl2.in"}, {From: "fs.out", To: "rfs.in"}, {From: "ps.out", To: "rps.in", Param: true}, {From: "fp.line", To: "rfp.in", Param: true},
 		{From: "cp.param", To: "rcp.in", Param: true}, {From: "gl.out", To: "rgl.in"}}}
 	rr := RunWorkflow(d, RunOpts{Dir: dir, Pre: pre})
 	ctx.Res.Eval("sources", true, map[string]interface{}{"kind": "sources"})
@@ -595,6 +597,7 @@ func sourcesE2E(ctx *Ctx) {
 	want := []string{"tree/a.txt", "tree/a2.txt", "tree/b.txt", "tree/sub/x.txt"}
 	sort.Strings(want[:3])
 	expect("rgl", want)
+	expect("rgl2", []string{"tree/c.dat", "tree/sub/x.txt"})
 }
 
 // like readRec but keeping empty lines (parameters may be empty strings)
